@@ -61,7 +61,7 @@ from .token import Token
 from .grammar import PVLGrammar, OmniGrammar
 from .decoder import PVLDecoder, OmniDecoder
 from .lexer import lexer as Lexer
-from .exceptions import LexerError, ParseError, linecount
+from .exceptions import LexerError, ParseError, QuantityError, linecount
 
 
 class EmptyValueAtLine(str):
@@ -278,7 +278,7 @@ class PVLParser(object):
                     parsing = True
                 else:
                     return m
-            except (LexerError, ParseError):
+            except (LexerError, ParseError, QuantityError):
                 raise
             except Exception:
                 pass
